@@ -190,7 +190,8 @@ Record iter := mkIter {
   ik    : ikind;
   irel  : bool;       (* Release was called (dbIter.dir = dirReleased / BasicReleaser.released) *)
   ierr  : outcome;    (* the stored error; Ok = nil *)
-  ihasr : bool        (* a releaser is set *)
+  ihasr : bool;       (* a releaser is set *)
+  iver  : nat         (* the version the iterator pins (value of dver when it was created) *)
 }.
 
 Record txn := mkTxn {
@@ -202,6 +203,7 @@ Record dbrec := mkDb {
   dmode  : mode;
   dseek  : bool;            (* seek-triggered compaction enabled (not Options.DisableSeeksCompaction) *)
   dbg    : bool;            (* background work may be pending or scheduled *)
+  dver   : nat;             (* number of version edits that may have been installed (flush, compaction, commit) *)
   dsnaps : list bool;       (* snapshots in creation order; true = released *)
   diters : list iter;
   dtxns  : list txn
@@ -221,11 +223,13 @@ Fixpoint upd {A} (l : list A) (i : nat) (x : A) : list A :=
   | y :: l', S i' => y :: upd l' i' x
   end.
 
-Definition set_mode (db : dbrec) (m : mode) := mkDb m (dseek db) (dbg db) (dsnaps db) (diters db) (dtxns db).
-Definition set_bg (db : dbrec) (b : bool) := mkDb (dmode db) (dseek db) b (dsnaps db) (diters db) (dtxns db).
-Definition set_snaps (db : dbrec) (l : list bool) := mkDb (dmode db) (dseek db) (dbg db) l (diters db) (dtxns db).
-Definition set_iters (db : dbrec) (l : list iter) := mkDb (dmode db) (dseek db) (dbg db) (dsnaps db) l (dtxns db).
-Definition set_txns (db : dbrec) (l : list txn) := mkDb (dmode db) (dseek db) (dbg db) (dsnaps db) (diters db) l.
+Definition set_mode (db : dbrec) (m : mode) := mkDb m (dseek db) (dbg db) (dver db) (dsnaps db) (diters db) (dtxns db).
+Definition set_bg (db : dbrec) (b : bool) := mkDb (dmode db) (dseek db) b (dver db) (dsnaps db) (diters db) (dtxns db).
+Definition set_snaps (db : dbrec) (l : list bool) := mkDb (dmode db) (dseek db) (dbg db) (dver db) l (diters db) (dtxns db).
+Definition set_iters (db : dbrec) (l : list iter) := mkDb (dmode db) (dseek db) (dbg db) (dver db) (dsnaps db) l (dtxns db).
+Definition set_txns (db : dbrec) (l : list txn) := mkDb (dmode db) (dseek db) (dbg db) (dver db) (dsnaps db) (diters db) l.
+(* a version edit may have been installed *)
+Definition bump (db : dbrec) := mkDb (dmode db) (dseek db) (dbg db) (S (dver db)) (dsnaps db) (diters db) (dtxns db).
 
 Definition add_iter (db : dbrec) (i : iter) := set_iters db (diters db ++ [i]).
 
@@ -266,31 +270,31 @@ Definition db_step (db : dbrec) (m : api_call) : res :=
   match dmode db with
   | Closed =>
       match m with
-      | DbNewIterator => (add_iter db (mkIter IEmpty false ErrClosed false), [], ErrClosed)
+      | DbNewIterator => (add_iter db (mkIter IEmpty false ErrClosed false (dver db)), [], ErrClosed)
       | _ => (db, [], ErrClosed)          (* db.ok() at entry; Close: setClosed fails *)
       end
   | RW =>
       if has_open_txn db && takes_write_lock m then (db, [], Blocks) else
       match m with
       | DbGet | DbHas => (read_sched db, [], Ok)
-      | DbNewIterator => (add_iter db (mkIter (IReal None) false Ok false), [], Ok)
+      | DbNewIterator => (add_iter db (mkIter (IReal None) false Ok false (dver db)), [], Ok)
       | DbGetSnapshot => (set_snaps db (dsnaps db ++ [false]), [], Ok)
       | DbGetProperty | DbStats | DbSizeOf | DbWrite true => (db, [], Ok)
       | DbPut | DbDelete | DbWrite false => (set_bg db true, write_muts ++ rotate_muts, Ok)
-      | DbCompactRange => (set_bg db true, rotate_muts ++ bg_muts, Ok)
-      | DbOpenTransaction => (set_txns (set_bg db true) (dtxns db ++ [mkTxn false false]), rotate_muts ++ bg_muts, Ok)
+      | DbCompactRange => (bump (set_bg db true), rotate_muts ++ bg_muts, Ok)
+      | DbOpenTransaction => (set_txns (bump (set_bg db true)) (dtxns db ++ [mkTxn false false]), rotate_muts ++ bg_muts, Ok)
       | DbSetReadOnly => (set_mode db RSwitched, [], Ok)
-      | DbClose => (mkDb Closed (dseek db) false (dsnaps db) (diters db) (close_txns (dtxns db)), close_muts db, Ok)
+      | DbClose => (mkDb Closed (dseek db) false (dver db) (dsnaps db) (diters db) (close_txns (dtxns db)), close_muts db, Ok)
       | _ => (db, [], NoHandle)
       end
   | _ (* ROpened, RSwitched: the write lock is held for ever, compPerErrC delivers ErrReadOnly *) =>
       match m with
       | DbGet | DbHas => (read_sched db, [], Ok)
-      | DbNewIterator => (add_iter db (mkIter (IReal None) false Ok false), [], Ok)
+      | DbNewIterator => (add_iter db (mkIter (IReal None) false Ok false (dver db)), [], Ok)
       | DbGetSnapshot => (set_snaps db (dsnaps db ++ [false]), [], Ok)
       | DbGetProperty | DbStats | DbSizeOf | DbWrite true => (db, [], Ok)
       | DbPut | DbDelete | DbWrite false | DbCompactRange | DbOpenTransaction | DbSetReadOnly => (db, [], ErrReadOnly)
-      | DbClose => (mkDb Closed (dseek db) false (dsnaps db) (diters db) (close_txns (dtxns db)), close_muts db, Ok)
+      | DbClose => (mkDb Closed (dseek db) false (dver db) (dsnaps db) (diters db) (close_txns (dtxns db)), close_muts db, Ok)
       | _ => (db, [], NoHandle)
       end
   end.
@@ -304,9 +308,9 @@ Definition snap_step (db : dbrec) (h : nat) (released : bool) (m : api_call) : r
       else if is_closed (dmode db) then (db, [], ErrClosed)
       else (read_sched db, [], Ok)
   | SnNewIterator =>
-      if released then (add_iter db (mkIter IEmpty false ErrSnapshotReleased false), [], ErrSnapshotReleased)
-      else if is_closed (dmode db) then (add_iter db (mkIter IEmpty false ErrClosed false), [], ErrClosed)
-      else (add_iter db (mkIter (IReal None) false Ok false), [], Ok)
+      if released then (add_iter db (mkIter IEmpty false ErrSnapshotReleased false (dver db)), [], ErrSnapshotReleased)
+      else if is_closed (dmode db) then (add_iter db (mkIter IEmpty false ErrClosed false (dver db)), [], ErrClosed)
+      else (add_iter db (mkIter (IReal None) false Ok false (dver db)), [], Ok)
   | SnRelease => (set_snaps db (upd (dsnaps db) h true), [], Ok)
   | _ => (db, [], NoHandle)
   end.
@@ -318,15 +322,15 @@ Definition txn_step (db : dbrec) (h : nat) (t : txn) (m : api_call) : res :=
   | TrWrite true => (db, [], Ok)
   | TrGet | TrHas => if tdone t then (db, [], ErrTransactionDone) else (read_sched db, [], Ok)
   | TrNewIterator =>
-      if tdone t then (add_iter db (mkIter IEmpty false ErrTransactionDone false), [], ErrTransactionDone)
-      else (add_iter db (mkIter (IReal (Some h)) false Ok false), [], Ok)
+      if tdone t then (add_iter db (mkIter IEmpty false ErrTransactionDone false (dver db)), [], ErrTransactionDone)
+      else (add_iter db (mkIter (IReal (Some h)) false Ok false (dver db)), [], Ok)
   | TrPut | TrDelete | TrWrite false =>
       if tdone t then (db, [], ErrTransactionDone)
       else (set_txns db (upd (dtxns db) h (mkTxn false true)), table_muts, Ok)
   | TrCommit =>
       if is_closed (dmode db) then (db, [], ErrClosed)
       else if tdone t then (db, [], ErrTransactionDone)
-      else (set_txns (set_bg db true) (upd (dtxns db) h (mkTxn true (ttab t))), table_muts ++ commit_muts, Ok)
+      else (set_txns (bump (set_bg db true)) (upd (dtxns db) h (mkTxn true (ttab t))), table_muts ++ commit_muts, Ok)
   | TrDiscard =>
       if tdone t then (db, [], Ok)
       else (set_txns db (upd (dtxns db) h (mkTxn true (ttab t))), if ttab t then [MRemove table_file] else [], Ok)
@@ -348,21 +352,32 @@ Definition iter_unsafe (db : dbrec) (i : iter) : bool :=
 
 (* db_iter.go dbIter / iterator.emptyIterator + util.BasicReleaser.  The outcome of an iterator call is the
    class of it.Error() right after the call (Panics for the documented SetReleaser panics). *)
+(* releasing a real iterator drops its reference on the version it pins; when that version is no longer the
+   current one, the tables it alone kept alive are removed by the session's reference loop (session_util.go
+   refLoop -> tOps.remove) — unless the DB is closed (the loop has stopped) *)
+Definition release_muts (db : dbrec) (i : iter) : list mut :=
+  match ik i with
+  | IEmpty => []
+  | IReal _ => if has_bg (dmode db) && (negb (irel i) && negb (Nat.eqb (iver i) (dver db))) then [MRemove table_file] else []
+  end.
+
+(* db_iter.go dbIter / iterator.emptyIterator + util.BasicReleaser.  The outcome of an iterator call is the
+   class of it.Error() right after the call (Panics for the documented SetReleaser panics). *)
 Definition iter_step (db : dbrec) (h : nat) (i : iter) (m : api_call) : res :=
   let put i' := set_iters db (upd (diters db) h i') in
   match m with
   | ItSetReleaser nonnil =>
       if irel i then (db, [], Panics)
       else if ihasr i && nonnil then (db, [], Panics)
-      else (put (mkIter (ik i) (irel i) (ierr i) nonnil), [], ierr i)
+      else (put (mkIter (ik i) (irel i) (ierr i) nonnil (iver i)), [], ierr i)
   | ItRelease =>
-      if iter_unsafe db i then (put (mkIter (ik i) true (ierr i) false), [], Unspecified)
-      else (put (mkIter (ik i) true (ierr i) false), [], ierr i)
+      if iter_unsafe db i then (put (mkIter (ik i) true (ierr i) false (iver i)), [], Unspecified)
+      else (put (mkIter (ik i) true (ierr i) false (iver i)), release_muts db i, ierr i)
   | ItValid | ItError | ItKey | ItValue => (db, [], ierr i)
   | ItFirst | ItLast | ItSeek | ItNext | ItPrev =>
       match ierr i with
       | Ok =>
-          if irel i then (put (mkIter (ik i) true ErrIterReleased (ihasr i)), [], ErrIterReleased)
+          if irel i then (put (mkIter (ik i) true ErrIterReleased (ihasr i) (iver i)), [], ErrIterReleased)
           else if iter_unsafe db i then (db, [], Unspecified)
           else (read_sched db, [], Ok)
       | e => (db, [], e)
@@ -393,13 +408,13 @@ Definition open_step (s : state) (ro seek : bool) : state * outcome :=
   if locked (stor s) then (s, ErrLocked)
   else if ro then
     if hasdb (stor s)
-    then (mkState (set_locked (stor s) true) (dbs s ++ [mkDb ROpened seek false [] [] []]), Ok)
+    then (mkState (set_locked (stor s) true) (dbs s ++ [mkDb ROpened seek false 0 [] [] []]), Ok)
     else (s, ErrOther)
   else (mkState (set_locked (set_hasdb (apply_muts (stor s) open_muts) true) true)
-                (dbs s ++ [mkDb RW seek true [] [] []]), Ok).
+                (dbs s ++ [mkDb RW seek true 0 [] [] []]), Ok).
 
 Definition drain_db (db : dbrec) : dbrec * list mut :=
-  if dbg db then (set_bg db false, bg_muts) else (db, []).
+  if dbg db then (bump (set_bg db false), bg_muts) else (db, []).
 
 Definition step (s : state) (c : call) : state * outcome :=
   match c with
